@@ -62,7 +62,12 @@ func init() {
 // ---- helpers (copies, under this file's prefix, of small helpers of the original extractors)
 
 func c05ParseGo(fset *token.FileSet, repo string, rel ...string) (*ast.File, error) {
-	return parser.ParseFile(fset, filepath.Join(append([]string{repo}, rel...)...), nil, 0)
+	f, err := parser.ParseFile(fset, filepath.Join(append([]string{repo}, rel...)...), nil, 0)
+	if err != nil {
+		return nil, err
+	}
+	c05NormalizeFile(f) // behaviour-preserving rewrites (c05_norm.go)
+	return f, nil
 }
 
 func c05TopFunc(f *ast.File, name string) *ast.FuncDecl {
